@@ -130,6 +130,14 @@ fn check_d<const D: usize>(c: &Case, ctx: &mut Ctx) -> Result<(), Failure> {
     for i in 0..D {
         eqb!("index_mut", vm[i], b[D - 1 - i], "IndexMut write then read [{i}]");
     }
+    {
+        let mut sq_r = 0.0f64;
+        for i in 0..D {
+            sq_r = sq_r + b[D - 1 - i] * b[D - 1 - i];
+        }
+        eqb!("index_mut", vm.squared(), sq_r, "squared() of a vector built by from_array and then overwritten through IndexMut");
+        eqb!("index_mut", vm.dot(&vm), sq_r, "dot(v,v) of a vector built by from_array and then overwritten through IndexMut");
+    }
     // arithmetic
     let sum = &va + &vb;
     let dif = &va - &vb;
@@ -178,6 +186,14 @@ fn check_d<const D: usize>(c: &Case, ctx: &mut Ctx) -> Result<(), Failure> {
             for i in 0..D {
                 eqb!("operation-history", v[i], r[i], "component {i} after step {k} of the chain += , -, +=, *s, +=, [0]=, -, += on one vector (a={a:?}, b={b:?}, s={s:e})");
             }
+            // the derived quantities follow the current components, whatever was done to the object before
+            let (mut sq_r, mut dot_r) = (0.0f64, 0.0f64);
+            for i in 0..D {
+                sq_r = sq_r + r[i] * r[i];
+                dot_r = dot_r + r[i] * b[i];
+            }
+            eqb!("operation-history", v.squared(), sq_r, "squared() after step {k} of the chain (a={a:?}, b={b:?}, s={s:e})");
+            eqb!("operation-history", v.dot(&vb), dot_r, "dot(.,b) after step {k} of the chain (a={a:?}, b={b:?}, s={s:e})");
         }
         // and a copy taken in the middle of a chain behaves like a fresh vector with the same components
         let mut w = va;
